@@ -575,6 +575,12 @@ func (g *Gen) genStmts(n int) []Stmt {
 	// nesting script (control-nesting profile): the first statement of successive statement lists is forced to be the
 	// next construct of the script, so that a prescribed nest such as loop > single-body switch > loop > single-body
 	// switch > conditional continue is actually reached; everything around it stays random
+	if g.fx.depth == 1 && g.fx.f != nil && !g.fx.inLoop && g.on("decl.dead-abstract-const") && r.Chance(1, 4) {
+		// the same at function scope: still registered when the function ends
+		g.feat("decl.dead-abstract-const")
+		dv := &Var{Name: g.name("k"), Kind: VConst, Ty: I32}
+		out = append(out, &VarDecl{V: dv, Init: &Materialize{X: &Lit{Ty: AbsInt, I: int64(r.Range(1, 99))}, Ty: I32}})
+	}
 	forced := byte(0)
 	if g.fx.f != nil && g.scriptPos < len(g.script) {
 		forced = g.script[g.scriptPos]
